@@ -609,6 +609,7 @@ def main():
     known = load_known()
     violations = []
     known_hits = []
+    known_fail_keys = set()
     replay_bin = None
     witness_cache = {}
     if fails:
@@ -645,6 +646,7 @@ def main():
                'replay_cmd': ('%s/bin/check %s --replay <this file>' % (VERIF, prop))}
         if hit:
             known_hits.append((full, case, hit))
+            known_fail_keys.add((name, site))
             continue
         h = hashlib.sha1(full.encode()).hexdigest()[:10]
         path = os.path.join(BUILD, 'replay_cases', '%s-%s.json' % (prop, h))
@@ -738,6 +740,10 @@ def main():
     failed_fns = set()
     failed_clause_keys = set()
     for (name, site), (u, f) in fails:
+        if (name, site) in known_fail_keys:
+            # an obligation recorded as a known finding is not part of what this run claims to have proved: it is listed
+            # under coverage.known_finding_obligations and counted neither as an obligation nor as discharged
+            continue
         c = f['clause']
         if c and c.get('k') == 'contract' and (c.get('section') == 'sig' or c.get('section', '').startswith('loop')):
             failed_clause_keys.add((c['file'], c['line']))
@@ -749,7 +755,7 @@ def main():
     # labelled obligations stated in proof blocks (hint sections) are not among the counted clauses: one that FAILS (a known
     # finding, or a violation) is counted as an obligation that is not discharged
     hint_fails = set(name for (name, site), (u, f) in fails
-                     if f['clause'] and f['clause'].get('k') == 'contract' and f['clause'].get('label')
+                     if (name, site) not in known_fail_keys and f['clause'] and f['clause'].get('k') == 'contract' and f['clause'].get('label')
                      and not (f['clause'].get('section') == 'sig' or f['clause'].get('section', '').startswith('loop')))
     obligations = nclauses + len(proved_here) + kani_ob + len(hint_fails)
     discharged = (nclauses - len(failed_clause_keys)) + len([f for f in proved_here if f['fn'] not in failed_fns]) + kani_ok
@@ -803,9 +809,11 @@ def main():
             'not_covered_clauses': cfg.get('not_covered', []),
             'undecided': undecided,
             'known_findings_hit': [k[0] for k in known_hits],
+            'known_finding_obligations': sorted('%s @ %s' % k for k in known_fail_keys),
             'explanation': 'obligations = contract clauses (ensures/invariants/decreases) tagged for this property or owned by its functions, '
                            'plus one safety bundle per function under proof (panics unreachable, indices in range, no overflow, termination, callee preconditions), '
-                           'plus Kani checks of complete (loop-free / fully unwound) harnesses',
+                           'plus Kani checks of complete (loop-free / fully unwound) harnesses. Obligations that fail and are recorded in known_findings.txt '
+                           '(coverage.known_finding_obligations) are NOT counted, neither as obligations nor as discharged: they are findings, not part of what this run proved',
         },
         'assumptions': assumptions,
         'wall_s': round(wall, 2),
